@@ -4,7 +4,7 @@
    Scope: everything AFTER the third-party wire decoders (jx, protobuf, pprof, snappy, gzip, multipart):
    those are exercised by the harness, their accept/reject bit is an input of the model. *)
 From Coq Require Import List String ZArith NArith Bool Permutation.
-From Qryn Require Import model.IngestRobust proofs.IngestRobustProofs model.IngestPipe proofs.IngestPipeProofs model.IngestFraming proofs.IngestFramingProofs gen.GenGoroutinesWriter.
+From Qryn Require Import model.IngestRobust proofs.IngestRobustProofs model.IngestPipe proofs.IngestPipeProofs model.IngestFraming proofs.IngestFramingProofs model.IngestShared proofs.IngestSharedProofs gen.GenGoroutinesWriter.
 Import ListNotations.
 
 (* ---- goroutines -------------------------------------------------------------------------- *)
@@ -787,3 +787,110 @@ Proof.
   intros ce gz. apply content_encoding_is_source_switch. vm_compute. reflexivity.
 Qed.
 Print Assumptions hand_written_dispatch_is_the_route_table.
+
+(* ---- fourth session: the batch shared with other clients' rows (model/IngestShared.v) ------------------------- *)
+
+(* The loops of the Prometheus remote-write decoder and of the Loki protobuf decoder -- the two decoders that build the four
+   slices of an onEntries call in a loop of their own -- regenerated from the source as programs over slice lengths, are
+   the modelled programs. *)
+Theorem decoder_loops_match_source : gen_prom_decode_prog = prom_prog /\ gen_lokiproto_decode_prog = lokiproto_prog.
+Proof. split; reflexivity. Qed.
+Print Assumptions decoder_loops_match_source.
+
+(* For EVERY remote-write body (any number of series, any number of samples in each): the decoder does not panic, every
+   call of onEntries hands over four slices of ONE length between 1 and the hand-over limit 1000, and the calls carry
+   every sample of the body exactly once.  (The equal-length contract log_batches_are_rectangular assumes, proved from
+   the regenerated loop instead of the syntactic lockstep verdict.) *)
+Theorem remote_write_decoder_keeps_the_contract : forall ns, exists cs,
+  run_dprog gen_prom_decode_prog ns = Some cs /\
+  Forall (fun c => dcall_consistent c = true /\ (1 <= dc_ts c <= 1000)%N) cs /\
+  sumN (map dc_ts cs) = sumN ns.
+Proof. exact prom_decoder_contract. Qed.
+Print Assumptions remote_write_decoder_keeps_the_contract.
+
+Example remote_write_catch_up_send :
+  run_dprog gen_prom_decode_prog [1500%N]
+  = Some [{| dc_series := 1; dc_ts := 1000; dc_msg := 1000; dc_val := 1000; dc_types := 1000 |};
+          {| dc_series := 1; dc_ts := 500; dc_msg := 500; dc_val := 500; dc_types := 500 |}]%N.
+Proof. vm_compute. reflexivity. Qed.
+
+(* For EVERY Loki protobuf body: no index out of range in the loop over the entries, one call per stream, four slices
+   of the stream's number of entries. *)
+Theorem loki_protobuf_decoder_keeps_the_contract : forall ns,
+  run_dprog gen_lokiproto_decode_prog ns = Some (simple_calls 0 ns) /\
+  Forall (fun c => dcall_consistent c = true) (simple_calls 0 ns).
+Proof. intros ns. split; [exact (lokiproto_decoder_contract ns)|apply simple_calls_consistent]. Qed.
+Print Assumptions loki_protobuf_decoder_keeps_the_contract.
+
+(* The batch of an insert service, shared by all clients of the table: for every interleaving of requests of any clients
+   and of flushes, from a batch whose columns have one length: when every request appends the same number of rows to
+   every column of the INSERT, no block is refused and nobody is answered with an error. *)
+Theorem rectangular_requests_never_fail_a_shared_batch : forall ncols cnt evs b v,
+  sb_cols b = repeat v ncols -> sevs_ok ncols evs = true ->
+  Forall (fun a => sa_ok a = true) (srun ncols cnt b evs).
+Proof. exact shared_batch_ok. Qed.
+Print Assumptions rectangular_requests_never_fail_a_shared_batch.
+
+Example shared_batch_hypotheses_met :
+  sevs_ok 5 [SvReq {| sr_client := 1; sr_cols := [1; 1; 1; 1; 1]%N |}; SvFlush; SvReq {| sr_client := 2; sr_cols := [1500; 1500; 1500; 1500; 1500]%N |};
+             SvReq {| sr_client := 1; sr_cols := [3; 3; 3; 3; 3]%N |}; SvFlush] = true.
+Proof. vm_compute. reflexivity. Qed.
+
+(* ... and the hypothesis is needed: the service does not compare the lengths; one torn request (the one the variant of
+   the decoder below produces for a series of 1500 samples) has the block refused and BOTH clients answered with the error *)
+Theorem shared_batch_needs_rectangular_requests : exists evs,
+  ~ Forall (fun a => sa_client a = 1%Z -> sa_ok a = true) (srun 5 spl_counted (sbatch0 5) evs).
+Proof.
+  eexists. rewrite torn_request_fails_the_other_client. intros H. inversion H as [|? ? H1 _]. specialize (H1 eq_refl). discriminate.
+Qed.
+Print Assumptions shared_batch_needs_rectangular_requests.
+
+(* "No request makes another client's well-formed push fail", for remote write: whatever body client B sends (ns), whatever
+   sizes and series its calls account for (evs), however its Decode ends (tail), and whatever the other clients send as
+   long as their requests are rectangular: in every interleaving with every placement of the flushes, nobody -- client A
+   in particular -- is answered with an error by the samples service or by the time-series service. *)
+Theorem remote_write_never_fails_another_clients_push : forall ns cs evs tail,
+  run_dprog gen_prom_decode_prog ns = Some cs -> Forall2 lens_match cs evs -> tail_ok tail = true ->
+  let sent := sent_lbatches gen_on_entries_cols gen_spl_fields gen_tsd_fields (lbatch0 gen_spl_fields gen_tsd_fields) (map LcEntries evs ++ tail) in
+  (forall stream, (forall r, In (SvReq r) stream -> sreq_ok 5 r = true \/ In r (map (spl_request 2) sent)) ->
+                  Forall (fun a => sa_ok a = true) (srun 5 spl_counted (sbatch0 5) stream)) /\
+  (forall stream, (forall r, In (SvReq r) stream -> sreq_ok 4 r = true \/ In r (map (ts_request 2) sent)) ->
+                  Forall (fun a => sa_ok a = true) (srun 4 ts_counted (sbatch0 4) stream)).
+Proof.
+  intros ns cs evs tail Hrun Hm Ht sent.
+  destruct (prom_decoder_contract ns) as [cs' [Hrun' [Hgood _]]].
+  replace gen_prom_decode_prog with prom_prog in Hrun by reflexivity. rewrite Hrun' in Hrun. inversion Hrun; subst cs'.
+  assert (Hreq : Forall (fun b => sreq_ok 5 (spl_request 2 b) = true /\ sreq_ok 4 (ts_request 2 b) = true) sent).
+  { apply (contract_requests_ok gen_on_entries_cols gen_spl_fields gen_tsd_fields gen_spl_consumed gen_tsd_consumed) with (calls := cs);
+      [vm_compute; reflexivity|vm_compute; reflexivity|vm_compute; reflexivity|apply call_good_consistent; exact Hgood|exact Hm|exact Ht]. }
+  rewrite Forall_forall in Hreq.
+  split; intros stream Hs; apply (shared_batch_ok _ _ _ _ 0%N); try reflexivity;
+    unfold sevs_ok; apply forallb_forall; intros e He; destruct e as [r|]; try reflexivity;
+    destruct (Hs r He) as [Hr|Hr]; try exact Hr; apply in_map_iff in Hr as [b [<- Hb]]; apply (Hreq b Hb).
+Qed.
+Print Assumptions remote_write_never_fails_another_clients_push.
+
+Example remote_write_push_hypotheses_met :
+  exists cs evs, run_dprog gen_prom_decode_prog [1500%N; 2%N] = Some cs /\ Forall2 lens_match cs evs /\ List.length cs = 3%nat.
+Proof.
+  eexists. exists (events_of_calls 0 (match run_dprog gen_prom_decode_prog [1500%N; 2%N] with Some cs => cs | None => [] end)).
+  split; [vm_compute; reflexivity|]. split; [|reflexivity].
+  vm_compute. repeat constructor.
+Qed.
+
+(* The variant with the message slice made once per series (independent breaking change C05-d) is refuted by the model on
+   concrete bodies -- one series of 1001 / 1500 / 2500 samples, 999 one-sample series and a two-sample series, ... -- and
+   the whole chain (decoder program, onEntries at column level, the shared samples batch) then predicts what the
+   real code does with it: the block [1501; 1501; 1501; 2501; 1501] is refused and client A, who sent one well-formed log
+   line, is answered 5xx. *)
+Theorem presized_message_slice_variant_refuted :
+  failing_probes prom_prog_presized_msg
+  = [[(1, 1001)]; [(1, 1500)]; [(999, 1); (1, 2)]; [(2, 600)]; [(1, 2500)]; [(400, 1); (1, 700); (5, 1)]]%N /\
+  failing_probes gen_prom_decode_prog = [] /\ failing_probes gen_lokiproto_decode_prog = [] /\
+  sh_expected gen_on_entries_cols gen_spl_fields gen_tsd_fields prom_prog_presized_msg gen_lokiproto_decode_prog
+    {| sh_id := 0; sh_a := {| cl_kind := CLokiJson; cl_shape := [(1, 1)]%N; cl_bad := false |};
+       sh_b := {| cl_kind := CProm; cl_shape := [(1, 1500)]%N; cl_bad := false |}; sh_a_is_loki := true;
+       sh_obs := {| so_a := O2xx; so_b := O2xx; so_blocks := []; so_a_lines := 0 |} |}
+  = (Exact C5xx, Exact C5xx, (true, [1501; 1501; 1501; 2501; 1501]%N), (false, [2; 2; 2; 2]%N)).
+Proof. vm_compute. repeat split. Qed.
+Print Assumptions presized_message_slice_variant_refuted.
